@@ -28,7 +28,7 @@ func init() {
 			"arrival time stamp of a message = accumulated Driver.Sleep time of the Send call that carried its last byte (C04)",
 			"inter-arrival gaps are kept below 0x07FFFFFF ticks at the recording tempo and resolution (a delta must be representable in the file)",
 		},
-		Require: []string{"recordings", "channel_messages_recorded", "non_channel_messages_sent", "realtime_sent", "syscommon_sent", "strict_validated", "read_back", "delta_checks", "file_level_recordings", "recordings_with_long_pause", "recordings_with_oversized_sysex", "long_sessions_beyond_2^32_ticks"},
+		Require: []string{"old_driver_recordings", "recordings", "channel_messages_recorded", "non_channel_messages_sent", "realtime_sent", "syscommon_sent", "strict_validated", "read_back", "delta_checks", "file_level_recordings", "recordings_with_long_pause", "recordings_with_oversized_sysex", "long_sessions_beyond_2^32_ticks"},
 		Run:     runC13,
 	})
 }
@@ -77,6 +77,10 @@ func runC13(c *mon.Ctx) {
 		deltas := make([]int32, len(parts))
 		acc := make([]int64, len(parts))
 		longPause := false
+		// the driver is older than the recording: real time passes between creating the driver (its clock
+		// starts then) and RecordFrom, more than is slept on the driver's clock before the first messages, so
+		// the first time stamps of the session are negative and cross zero during the recording
+		oldDriver := mode == 0 && r.P(1, 60)
 		off := 0
 		var t int64
 		for j, p := range parts {
@@ -86,7 +90,10 @@ func runC13(c *mon.Ctx) {
 			if r.P(1, 4) {
 				deltas[j] = 0
 			}
-			if !longPause && r.P(1, 25) { // one long pause: minutes to hours on the virtual clock
+			if oldDriver {
+				deltas[j] = int32(r.Intn(7))
+			}
+			if !longPause && !oldDriver && r.P(1, 25) { // one long pause: minutes to hours on the virtual clock
 				ms := float64(r.Pick(60_000, 300_000, 600_000, 3_600_000, 7_200_000))
 				// the gap must stay representable: below the SMF maximum of 0x0FFFFFFF ticks (with headroom)
 				if lim := float64(0x07FFFFFF) * 60000 / (float64(res) * bpm); ms > lim {
@@ -132,6 +139,10 @@ func runC13(c *mon.Ctx) {
 		in := map[string]any{"case": label, "resolution": res, "bpm": bpm, "stream": mon.Hex(stream), "chunks": len(chunks), "deltas_ms": head32i(deltas, 40)}
 
 		l := newL2()
+		if oldDriver {
+			time.Sleep(25 * time.Millisecond)
+			in["driver"] = "created 25 ms (real time) before RecordFrom; no sleep on the driver's clock before the first message"
+		}
 		var tr smf.Track
 		var file *smf.SMF
 		var stop func()
@@ -163,7 +174,9 @@ func runC13(c *mon.Ctx) {
 			c.Violation("record-error", err.Error(), in, nil, err.Error())
 			return
 		}
-		l.drv.Sleep(c13BaseMs * time.Millisecond)
+		if !oldDriver {
+			l.drv.Sleep(c13BaseMs * time.Millisecond)
+		}
 		addedMid := false
 		if c.Guard("panic:recording", in, func() {
 			for j, ch := range chunks {
@@ -290,6 +303,11 @@ func runC13(c *mon.Ctx) {
 				}
 				c.Count("channel_messages_recorded", 1)
 				c.Count("delta_checks", 1)
+				if k == 0 && oldDriver {
+					// the position of the first message depends on the unknown (negative) session offset
+					c.Count("old_driver_recordings", 1)
+					continue
+				}
 				if k == 0 {
 					lo := c13ExpectedTicks(c13BaseMs+want[0].at-60000, res, bpm) - 1
 					hi := c13ExpectedTicks(c13BaseMs+want[0].at, res, bpm) + 1
